@@ -26,7 +26,12 @@ func (q *syntaxBasicCompareQuery) compute(
 	// leftFound == false && rightFound == false
 	if leftFound == rightFound {
 		if _, ok := q.comparator.(*syntaxCompareDeepEQ); ok {
-			return currentList
+			// Every member matches. Return a private copy: the logical operators
+			// write their verdicts into the list they receive, and currentList
+			// is the caller's array (or is read again by a sibling query).
+			result := make([]interface{}, len(currentList))
+			copy(result, currentList)
+			return result
 		}
 	}
 
